@@ -17,8 +17,15 @@
    NOT PROVED (left to the direct oracle of tools/props/C07.py, labelled exploration in the evidence):
      the closed form for d = 5 (x * num scalar), that the Shirokov loop reaches its `break` within
      2^ceil(d/2) rounds for d >= 6 (C07_shirokov_partial assumes the break), and "ZeroDivisionError
-     only for singular operands" beyond d = 4.  Custom bases with non-ascending spellings follow from
-     the d <= 4 statements by the C14 relabelling isomorphism (Theory/Relabel.v); not composed here. *)
+     only for singular operands" beyond d = 4.
+   PROVED, d <= 4, EVERY admissible basis (wf_alg A = true: any generator order, any spellings such as
+   e31 / e021, any order within a grade; 2DPGA, 3DPGA, STAP ...), start index >= 0, ALL operands
+   (Theory/InverseRelabel.v: the ascending statements composed with the C14 relabelling isomorphism of
+   Theory/Relabel.v onto the default basis of the same signature and start index):
+     C07_hitzer_le4_any_basis, C07_inv_le4_any_basis, C07_zde_only_singular_le4_any_basis,
+     C07_inv_le4_complete_any_basis, with C07_default_ascending, C07_invertible_transfer,
+     C07_hitzer_num_relabel, C07_hitzer_den_relabel (every dimension, every pair of filters) and the
+     instance C07_inv_pga3d_fractions. *)
 From Coq Require Import List ZArith QArith Qcanon Ring_theory.
 From KV Require Import Model.All Model.Inverse Theory.WF Theory.Sparse Theory.Ops Theory.OpsWF
   Theory.Algebra Theory.Inverse Theory.Hitzer.
@@ -291,6 +298,134 @@ Example C07_ex_chains :
   minimal_chains 8 = Ok [(1, [1]); (2, [1; 2]); (3, [1; 2; 3]); (4, [1; 2; 4]); (5, [1; 2; 3; 5]);
                          (6, [1; 2; 3; 6]); (8, [1; 2; 4; 8]); (7, [1; 2; 3; 5; 7])].
 Proof. vm_compute. reflexivity. Qed.
+
+(* ================= d <= 4, every admissible basis (Theory/InverseRelabel.v) ================= *)
+From KV Require Import Theory.Relabel Theory.InverseRelabel.
+
+(* the default basis is ascending for EVERY start index >= 0 (C07_hitzer_default_le4 had 0..2) *)
+Theorem C07_default_ascending : forall sig start g,
+  (forall s, In s sig -> s = 1 \/ s = -1 \/ s = 0) -> 0 <= start -> (length sig <= 4)%nat ->
+  ascending_ok (mk_default sig start g) = true.
+Proof. exact default_ascending. Qed.
+Print Assumptions C07_default_ascending.
+
+Section AnyBasis.
+  Variable R : Type.
+  Variables (R0 R1 : R) (Radd Rmul Rsub : R -> R -> R) (Ropp : R -> R).
+  Hypothesis Rth : ring_theory R0 R1 Radd Rmul Rsub Ropp (@eq R).
+  Local Notation O := (mkOps R Radd Rsub Rmul Ropp R0 R1).
+  Local Notation "x == y" := (Sparse.equiv R0 R1 Radd Rmul Rsub Ropp x y) (at level 70).
+  Local Notation scal := (Algebra.scal Rmul).
+  Local Notation one := (Algebra.one R1).
+  Local Notation filter_ok := (filter_ok R0 R1 Radd Rmul Rsub Ropp).
+  Local Notation relabel := (Relabel.relabel R R0 R1 Rmul Ropp).
+  Variable dv : R -> R -> R.
+  Variable isz : R -> bool.
+
+  (* relabel A D (C14) maps 1 to 1, is linear and injective up to ==; invertibility transfers both ways *)
+  Theorem C07_invertible_transfer : forall A D, wf_alg A = true -> wf_alg D = true ->
+    a_sig A = a_sig D -> a_start A = a_start D ->
+    relabel A D one == one
+    /\ (forall c (x : mv R), relabel A D (scal c x) == scal c (relabel A D x))
+    /\ (forall u v : mv R, wfmv A u -> wfmv A v -> relabel A D u == relabel A D v -> u == v)
+    /\ (forall x y : mv R, wfmv A x -> wfmv A y ->
+          (gp O A x y == one <-> gp O D (relabel A D x) (relabel A D y) == one)).
+  Proof.
+    intros A D HA HD Hs Ht.
+    exact (conj (relabel_one R R0 R1 Radd Rmul Rsub Ropp Rth A D HA)
+          (conj (relabel_scal R R0 R1 Radd Rmul Rsub Ropp Rth A D)
+          (conj (relabel_inj R R0 R1 Radd Rmul Rsub Ropp Rth A D HA HD Hs Ht)
+                (invertible_transfer R R0 R1 Radd Rmul Rsub Ropp Rth A D HA HD Hs Ht)))).
+  Qed.
+
+  (* the numerator of codegen_hitzer_inv commutes with relabel: every dimension (d <= 5 formulas, the
+     same NotImplementedError beyond), every filter F on A and G on D that keep the element *)
+  Theorem C07_hitzer_num_relabel : forall A D, wf_alg A = true -> wf_alg D = true ->
+    a_sig A = a_sig D -> a_start A = a_start D ->
+    forall F G, filter_ok A F -> filter_ok D G -> forall x : mv R, wfmv A x ->
+    match hitzer_num O F A x with
+    | Ok n => exists n', hitzer_num O G D (relabel A D x) = Ok n' /\ wfmv A n /\ wfmv D n' /\ relabel A D n == n'
+    | Err e => hitzer_num O G D (relabel A D x) = Err e
+    end.
+  Proof. exact (hitzer_num_relabel R R0 R1 Radd Rmul Rsub Ropp Rth). Qed.
+
+  (* ... and the denominator is the same ring element *)
+  Theorem C07_hitzer_den_relabel : forall A D, wf_alg A = true -> wf_alg D = true ->
+    a_sig A = a_sig D -> a_start A = a_start D ->
+    forall F G, filter_ok A F -> filter_ok D G ->
+    forall x n n' : mv R, wfmv A x -> wfmv A n -> wfmv D n' -> relabel A D n == n' ->
+    hitzer_den O F A x n = hitzer_den O G D (relabel A D x) n'.
+  Proof. exact (hitzer_den_relabel R R0 R1 Radd Rmul Rsub Ropp Rth). Qed.
+
+  (* C07_hitzer_le4 without ascending_ok: for ALL operands x * num and num * x are the scalar den;
+     den = 0 only for singular operands *)
+  Theorem C07_hitzer_le4_any_basis : forall A, wf_alg A = true -> (a_d A <= 4)%nat -> 0 <= a_start A ->
+    forall F, filter_ok A F -> forall x : mv R, wfmv A x ->
+    exists num, hitzer_num O F A x = Ok num /\ wfmv A num /\
+      let den := hitzer_den O F A x num in
+      gp O A x num == scal den one /\ gp O A num x == scal den one /\
+      (den = R0 -> R1 <> R0 -> ~ exists y, wfmv A y /\ gp O A x y == one /\ gp O A y x == one).
+  Proof.
+    intros A Hwf Hd Hst F HF x Hx.
+    exact (hitzer_le4_any_basis R R0 R1 Radd Rmul Rsub Ropp Rth A Hwf Hd Hst F HF x Hx).
+  Qed.
+
+  (* x * x.inv() = x.inv() * x = 1 whenever x.inv() returns *)
+  Theorem C07_inv_le4_any_basis : forall A, wf_alg A = true -> (a_d A <= 4)%nat -> 0 <= a_start A ->
+    forall F, filter_ok A F -> forall (x r : mv R), wfmv A x ->
+    (forall b, isz b = false -> Rmul b (dv R1 b) = R1) ->
+    inv_model O dv isz F A x = Ok r -> gp O A x r == one /\ gp O A r x == one.
+  Proof.
+    intros A Hwf Hd Hst F HF x r.
+    exact (inv_le4_sound_any_basis R R0 R1 Radd Rmul Rsub Ropp Rth A Hwf Hd Hst dv isz F HF x r).
+  Qed.
+
+  (* ZeroDivisionError only for operands that have no inverse *)
+  Theorem C07_zde_only_singular_le4_any_basis : forall A, wf_alg A = true -> (a_d A <= 4)%nat -> 0 <= a_start A ->
+    forall F, filter_ok A F -> forall x : mv R, wfmv A x -> R1 <> R0 -> (forall r, isz r = true -> r = R0) ->
+    inv_model O dv isz F A x = Err EZeroDiv ->
+    ~ exists y, wfmv A y /\ gp O A x y == one /\ gp O A y x == one.
+  Proof.
+    intros A Hwf Hd Hst F HF x.
+    exact (zde_only_singular_le4_any_basis R R0 R1 Radd Rmul Rsub Ropp Rth A Hwf Hd Hst dv isz F HF x).
+  Qed.
+
+  (* over a field: a value exactly for the invertible operands, ZeroDivisionError exactly for the others *)
+  Theorem C07_inv_le4_complete_any_basis : forall A, wf_alg A = true -> (a_d A <= 4)%nat -> 0 <= a_start A ->
+    forall F, filter_ok A F -> forall x : mv R, wfmv A x -> R1 <> R0 ->
+    (forall r, isz r = true -> r = R0) -> (forall b, isz b = false -> Rmul b (dv R1 b) = R1) ->
+    ((exists y, wfmv A y /\ gp O A x y == one /\ gp O A y x == one) <-> exists r, inv_model O dv isz F A x = Ok r)
+    /\ (~ (exists y, wfmv A y /\ gp O A x y == one /\ gp O A y x == one) <-> inv_model O dv isz F A x = Err EZeroDiv).
+  Proof.
+    intros A Hwf Hd Hst F HF x.
+    exact (inv_le4_complete_any_basis R R0 R1 Radd Rmul Rsub Ropp Rth A Hwf Hd Hst dv isz F HF x).
+  Qed.
+End AnyBasis.
+Print Assumptions C07_invertible_transfer.
+Print Assumptions C07_hitzer_num_relabel.
+Print Assumptions C07_hitzer_den_relabel.
+Print Assumptions C07_hitzer_le4_any_basis.
+Print Assumptions C07_inv_le4_any_basis.
+Print Assumptions C07_zde_only_singular_le4_any_basis.
+Print Assumptions C07_inv_le4_complete_any_basis.
+
+(* the instance 3DPGA (basis e, e1, e2, e3, e0, e01, e02, e03, e12, e31, e23, e032, e013, e021, e123, e0123 —
+   not ascending: C07_ex_pga3d), exact fractions, numeric path — no hypothesis left *)
+Theorem C07_inv_pga3d_fractions : forall x : mv Qc, wfmv SignBits.ex_pga3d x ->
+  let A := SignBits.ex_pga3d in
+  let eqv := Sparse.equiv (Q2Qc 0) (Q2Qc 1) Qcplus Qcmult Qcminus Qcopp in
+  let has_inverse := exists y, wfmv A y /\ eqv (gp Qcops A x y) (Algebra.one (Q2Qc 1))
+                               /\ eqv (gp Qcops A y x) (Algebra.one (Q2Qc 1)) in
+  (forall r, inv_model Qcops Qcdiv Qcisz (fun z => z) A x = Ok r ->
+     eqv (gp Qcops A x r) (Algebra.one (Q2Qc 1)) /\ eqv (gp Qcops A r x) (Algebra.one (Q2Qc 1)))
+  /\ (has_inverse <-> exists r, inv_model Qcops Qcdiv Qcisz (fun z => z) A x = Ok r)
+  /\ (~ has_inverse <-> inv_model Qcops Qcdiv Qcisz (fun z => z) A x = Err EZeroDiv).
+Proof. exact inv_pga3d_fractions. Qed.
+Print Assumptions C07_inv_pga3d_fractions.
+Example C07_ex_pga3d :
+  wf_alg SignBits.ex_pga3d = true /\ (a_d SignBits.ex_pga3d <= 4)%nat /\ 0 <= a_start SignBits.ex_pga3d
+  /\ ascending_ok SignBits.ex_pga3d = false.
+Proof. exact (conj (proj1 ex_pga3d_hyps) (conj (proj1 (proj2 ex_pga3d_hyps)) (conj (proj2 (proj2 ex_pga3d_hyps)) ex_pga3d_not_ascending))). Qed.
 
 (* ---- source pins: the functions whose hand-written model carries the theorems above are still, textually (after
    ast normalisation), the functions the model was validated against; an edit breaks Bridge/Pins_C07.v ---- *)
